@@ -89,14 +89,26 @@ def gen(seed: int, tier: str) -> dict[str, Any]:
         # with a device is where a shared decode could leak into the device state)
         table[str(a)] = rng.choice(HOT) if rng.random() < 0.5 else rng.choice(DPTS)
     tgs = []
+    repeat = rng.choice([0.0, 0.3, 0.6])       # cyclic senders repeat the same payload on the same address
     for i in range(rng.choice([3, 8, 20])):
         kind, ln = rng.choice(PAYLOADS)
         data = [rng.randrange(256) for _ in range(ln)] if kind == "arr" else ln
         if kind == "arr" and rng.random() < 0.3:
             data = [0] * ln
-        tgs.append({"addr": rng.choice(pool), "kind": kind, "data": data, "apci": rng.choice(["write", "write", "response"]),
-                    "dir": rng.choice(["in", "in", "out"])})
-    return {"seed": seed, "tier": "S", "config": {"batch": 1}, "devices": devs, "table": table, "ops": tgs}
+        tg = {"addr": rng.choice(pool), "kind": kind, "data": data, "apci": rng.choice(["write", "write", "response"]),
+              "dir": rng.choice(["in", "in", "out"])}
+        if tgs and rng.random() < repeat:
+            prev = rng.choice(tgs[-3:])
+            tg.update(addr=prev["addr"], kind=prev["kind"], data=prev["data"])
+        tgs.append(tg)
+    # the table is reconfigured while running (project re-import): other types for some of the addresses
+    table2, retable_at = {}, None
+    if rng.random() < 0.35 and len(tgs) >= 2:
+        retable_at = rng.randrange(1, len(tgs))
+        for a in rng.sample(sorted(pool), rng.randint(1, len(pool))):
+            table2[str(a)] = rng.choice(HOT) if rng.random() < 0.6 else rng.choice(DPTS)
+    return {"seed": seed, "tier": "S", "config": {"batch": 1}, "devices": devs, "table": table, "ops": tgs,
+            "table2": table2, "retable_at": retable_at}
 
 
 def _one(plan, with_table: bool):
@@ -112,6 +124,8 @@ def _one(plan, with_table: bool):
     decoded: list[Any] = []
     devobjs: list[Any] = []
     table = {int(k): v for k, v in plan["table"].items()}
+    table2 = {int(k): v for k, v in (plan.get("table2") or {}).items()}
+    version = [1]
 
     def snapshot():
         out = []
@@ -129,7 +143,7 @@ def _one(plan, with_table: bool):
         dd = tg.decoded_data
         decoded.append((tg.destination_address.raw, type(tg.payload.value).__name__, tuple(tg.payload.value.value)
                         if isinstance(tg.payload.value.value, tuple) else tg.payload.value.value,
-                        None if dd is None else (dd.transcoder.__name__, repr(dd.value))))
+                        None if dd is None else (dd.transcoder.__name__, repr(dd.value)), version[0]))
 
     async def main():
         for spec in plan["devices"]:
@@ -144,7 +158,11 @@ def _one(plan, with_table: bool):
             xknx.group_address_dpt.set({GroupAddress(a): d for a, d in table.items()})
         xknx.telegram_queue.register_telegram_received_cb(sentinel, match_for_outgoing=True)
         await xknx.start()
-        for op in plan["ops"]:
+        for oi, op in enumerate(plan["ops"]):
+            if plan.get("retable_at") == oi:
+                version[0] = 2
+                if with_table:
+                    xknx.group_address_dpt.set({GroupAddress(a): d for a, d in table2.items()})
             data = DPTBinary(op["data"]) if op["kind"] == "bin" else DPTArray(tuple(op["data"]))
             payload = GroupValueWrite(data) if op["apci"] == "write" else GroupValueResponse(data)
             xknx.telegrams.put_nowait(Telegram(
@@ -180,9 +198,14 @@ def run(plan: dict[str, Any]) -> dict[str, Any]:
             break
     # decoded_data in the table run equals the configured type's own decode
     hit = 0
-    for (addr, ptype, pval, dd) in dec_a:
+    table2 = {int(k): v for k, v in (plan.get("table2") or {}).items()}
+    for (addr, ptype, pval, dd, ver) in dec_a:
         spec = table.get(addr)
         tc = DPTBase.parse_transcoder(spec) if spec is not None else None
+        if ver == 2 and addr in table2 and DPTBase.parse_transcoder(table2[addr]) is not None:
+            # set() merges: a later entry with a known type replaces the earlier one
+            spec = table2[addr]
+            tc = DPTBase.parse_transcoder(spec)
         if tc is None:
             if dd is not None:
                 R.violate("C38.decoded-data", "decoded-without-table-entry", f"address {addr}: {dd}")
@@ -196,7 +219,7 @@ def run(plan: dict[str, Any]) -> dict[str, Any]:
         if dd != want:
             R.violate("C38.decoded-data", "decoded_data!=own-decode" if want is not None else "decoded-although-decode-fails",
                       f"address {addr} table {spec!r} payload {ptype}{pval}: decoded_data {dd}, transcoder says {want}")
-    for (addr, ptype, pval, dd) in dec_b:
+    for (addr, ptype, pval, dd, ver) in dec_b:
         if dd is not None:
             R.violate("C38.decoded-data", "decoded-without-table", f"address {addr}: {dd}")
     RA.check_escapes("C38.no-escape")
